@@ -1,0 +1,100 @@
+//go:build verif
+
+package larking
+
+import (
+	"fmt"
+	"sort"
+	"strings"
+
+	"google.golang.org/grpc"
+)
+
+// Verification hooks. Compiled only with -tags verif. Add-only: nothing in
+// this file is referenced from the rest of the package.
+
+// VerifRegisterService registers the service like RegisterService but returns
+// the error instead of ending the process.
+func VerifRegisterService(m *Mux, sd *grpc.ServiceDesc, ss interface{}) error {
+	return m.registerService(sd, ss)
+}
+
+// VerifSnapshot returns the currently published routing state.
+func VerifSnapshot(m *Mux) interface{} { return m.loadState() }
+
+// VerifFingerprint renders the logical content of a captured snapshot.
+func VerifFingerprint(snapshot interface{}) string {
+	s, _ := snapshot.(*state)
+	if s == nil {
+		return "nil"
+	}
+	var b strings.Builder
+	verifPath(&b, s.path)
+	b.WriteString("|handlers{")
+	var names []string
+	for name := range s.handlers {
+		names = append(names, name)
+	}
+	sort.Strings(names)
+	for _, name := range names {
+		fmt.Fprintf(&b, "%s:[", name)
+		for _, h := range s.handlers[name] {
+			fmt.Fprintf(&b, "%p,", h)
+		}
+		b.WriteString("]")
+	}
+	b.WriteString("}|conns{")
+	var conns []string
+	for cc, cl := range s.conns {
+		var hs []string
+		for _, h := range cl.handlers {
+			hs = append(hs, fmt.Sprintf("%p", h))
+		}
+		conns = append(conns, fmt.Sprintf("%p:%x:%s", cc, cl.fdHash, strings.Join(hs, ",")))
+	}
+	sort.Strings(conns)
+	b.WriteString(strings.Join(conns, ";"))
+	b.WriteString("}")
+	return b.String()
+}
+
+func verifPath(b *strings.Builder, p *path) {
+	if p == nil {
+		b.WriteString("nil")
+		return
+	}
+	b.WriteString("path{")
+	var keys []string
+	for k := range p.segments {
+		keys = append(keys, k)
+	}
+	sort.Strings(keys)
+	for _, k := range keys {
+		fmt.Fprintf(b, "%q:", k)
+		verifPath(b, p.segments[k])
+		b.WriteString(",")
+	}
+	b.WriteString("vars[")
+	for _, v := range p.variables {
+		fmt.Fprintf(b, "%q->", v.name)
+		verifPath(b, v.next)
+		b.WriteString(",")
+	}
+	b.WriteString("]methods{")
+	keys = keys[:0]
+	for k := range p.methods {
+		keys = append(keys, k)
+	}
+	sort.Strings(keys)
+	for _, k := range keys {
+		fmt.Fprintf(b, "%s:%s,", k, p.methods[k].name)
+	}
+	b.WriteString("}")
+	if p.methodAll != nil {
+		fmt.Fprintf(b, "all:%s", p.methodAll.name)
+	}
+	b.WriteString("}")
+}
+
+// VerifHTTPBodyCodec returns the built-in google.api.HttpBody stream codec.
+func VerifHTTPBodyCodec() StreamCodec { return codecHTTPBody{} }
